@@ -323,6 +323,9 @@ func (ex *Exec) applyContract(st *State, fn *ssa.Function, fc *contract.Func, ar
 		for _, r := range rets {
 			if ref, ok := ex.refOf(st, r); ok {
 				st.Assume(smt.Neq(ref, NilRef))
+				al := ex.allocOf(st)
+				st.Assume(smt.Not(smt.Sel(al, ref)))
+				st.Ghost["alloc"] = smt.Sto(al, ref, smt.True)
 				for _, other := range ex.knownRefs(st, args) {
 					st.Assume(smt.Neq(ref, other))
 				}
@@ -880,8 +883,26 @@ func (ex *Exec) enterLoop(st *State, b *ssa.BasicBlock, prev *ssa.BasicBlock, or
 			break
 		}
 	}
+	// frame invariant (generated): before the havoc it holds by construction of the checks
+	// below at every back edge; here it is established on entry
+	frameKeys := ex.loopFrameKeys(fn, wKeys)
+	for _, k := range frameKeys {
+		ex.AddObl(st, "invariant-entry", fmt.Sprintf("loop%d/frame-inv/%s/entry", ord, k), pos, ex.frameInv(st, k))
+	}
 	// 3. havoc, assume invariant
+	preAlloc := ""
+	if wKeys["ghost:alloc"] {
+		preAlloc = ex.allocOf(st)
+	}
 	ex.havocLoop(st, b, wObjs, wKeys)
+	for _, k := range frameKeys {
+		st.Assume(ex.frameInv(st, k))
+	}
+	if preAlloc != "" {
+		// the ghost allocation set only grows (it is only ever updated by store(alloc, r, true))
+		x := ex.boundName("x")
+		st.Assume(smt.Forall([][2]string{{x, "Ref"}}, smt.Imp(smt.Sel(preAlloc, x), smt.Sel(ex.allocOf(st), x))))
+	}
 	for k := range poisoned {
 		st.Fr.Env[k] = Opaque{Why: "slice sharing a backing array that an append(alias[:n], ...) in an earlier iteration may have overwritten (" + k.Name() + ")"}
 	}
@@ -893,7 +914,7 @@ func (ex *Exec) enterLoop(st *State, b *ssa.BasicBlock, prev *ssa.BasicBlock, or
 		}
 		st.Assume(t)
 	}
-	rec := &loopRec{Ordinal: ord}
+	rec := &loopRec{Ordinal: ord, FrameKeys: frameKeys}
 	if lc.Decreases != nil {
 		rec.HasDec = true
 		rec.Dec = ex.EvalInt(sc, *lc.Decreases)
@@ -992,8 +1013,48 @@ func (ex *Exec) loopBackEdge(st *State, b *ssa.BasicBlock, ord int, rec *loopRec
 		g := ex.EvalBool(sc, inv)
 		ex.AddObl(st, "invariant-step", fmt.Sprintf("loop%d/inv#%d/preserved", ord, i+1), pos, g)
 	}
+	for _, k := range rec.FrameKeys {
+		ex.AddObl(st, "invariant-step", fmt.Sprintf("loop%d/frame-inv/%s/preserved", ord, k), pos, ex.frameInv(st, k))
+	}
 	if rec.HasDec {
 		d := ex.EvalInt(sc, *lc.Decreases)
 		ex.AddObl(st, "decreases", fmt.Sprintf("loop%d/decreases", ord), pos, smt.And(smt.Ge(rec.Dec, "0"), smt.Lt(d, rec.Dec)))
 	}
+}
+
+// loopFrameKeys: heap keys written by the loop that the function's frame does not allow to
+// change for every object (only in the function whose frame is being checked).
+func (ex *Exec) loopFrameKeys(fn *ssa.Function, wKeys map[string]bool) []string {
+	if !ex.frameOn || ex.frameFn != fn || ex.mute > 0 {
+		return nil
+	}
+	var ks []string
+	for k := range wKeys {
+		if strings.HasPrefix(k, "ghost:") || ex.frameAny[k] {
+			continue
+		}
+		ks = append(ks, k)
+	}
+	sort.Strings(ks)
+	return ks
+}
+
+// frameInv: every object that is neither allowed by the contract nor created by this call
+// still has its entry value for heap key k.
+func (ex *Exec) frameInv(st *State, k string) string {
+	x := ex.boundName("x")
+	var ds []string
+	for _, r := range ex.frameAllowed[k] {
+		ds = append(ds, smt.Eq(x, r))
+	}
+	al0 := ex.allocOf(ex.entryOld)
+	ds = append(ds, smt.And(smt.Sel(ex.allocOf(st), x), smt.Not(smt.Sel(al0, x))))
+	ds = append(ds, smt.Eq(smt.Sel(ex.heapArr(st, k, ex.heapSort[k]), x), smt.Sel(ex.heap0Arr(k, ex.heapSort[k]), x)))
+	return smt.Forall([][2]string{{x, "Ref"}}, smt.Or(ds...))
+}
+
+// allocMono: nothing is ever de-allocated.
+func (ex *Exec) allocMono(st *State) string {
+	x := ex.boundName("x")
+	return smt.Forall([][2]string{{x, "Ref"}}, smt.Imp(smt.Sel(ex.allocOf(ex.entryOld), x), smt.Sel(ex.allocOf(st), x)))
 }
